@@ -295,33 +295,46 @@ Proof.
   intros H. unfold set_expire. destruct (w >=? max_u32 - 1) eqn:E; [lia|].
   rewrite Z.mod_small by (unfold max_u32 in *; lia). reflexivity.
 Qed.
-Theorem setex_sets_expiry s ts k d v : 0 < d -> 0 <= d + sec ts < max_u32 - 1 ->
+Lemma expire_when_pos ts d : 0 < d + sec ts < max_u32 - 1 -> expire_when ts d = Some (d + sec ts).
+Proof.
+  intros H. unfold expire_when, max_u32 in *.
+  destruct ((d >? 0) && (sec ts >? 9223372036854775807 - d)) eqn:E; [lia|].
+  destruct (sec ts + d <=? 0) eqn:F; [lia|]. f_equal. lia.
+Qed.
+Theorem setex_sets_expiry s ts k d v : 0 < d -> 0 < d + sec ts < max_u32 - 1 ->
   kv_get (fst (step Compact s ts (CSetEx k d v))) k = Some (mkH (d + sec ts) 0, v).
 Proof.
   intros Hd Hr. cbn [step]. unfold do_setex. destruct (d <=? 0) eqn:E; [lia|].
-  unfold kv_reset. rewrite E, (set_expire_in_range fresh_hdr _ Hr). cbn [fst]. now rewrite kv_get_put, bytes_eqb_refl.
+  unfold kv_reset. rewrite E, (expire_when_pos ts d Hr), (set_expire_in_range fresh_hdr (d + sec ts)) by lia. cbn [fst].
+  now rewrite kv_get_put, bytes_eqb_refl.
 Qed.
 Theorem expire_sets_expiry s ts t k d h : hdr_of s t k = Some h -> is_expired Compact h ts = false ->
-  0 <= d + sec ts < max_u32 - 1 ->
+  0 < d + sec ts < max_u32 - 1 ->
   hdr_of (fst (step Compact s ts (CExpire t k d))) t k = Some (mkH (d + sec ts) (h_ver h)) /\
   snd (step Compact s ts (CExpire t k d)) = RInt 1.
 Proof.
-  intros H E Hr. cbn [step]. unfold do_expire, hdr_of in *. destruct t.
+  intros H E Hr. assert (Hr' : 0 <= d + sec ts < max_u32 - 1) by lia.
+  cbn [step]. unfold do_expire, hdr_of in *. rewrite (expire_when_pos ts d Hr). destruct t.
   - destruct (kv_get s k) as [[h0 v0]|] eqn:K; [|discriminate]. inversion H; subst.
-    unfold kv_set_expire, kv_raw. rewrite K, E. rewrite (Z.add_comm (sec ts) d), (set_expire_in_range h _ Hr). cbn [fst snd].
+    unfold kv_set_expire, kv_raw. rewrite K, E. rewrite (set_expire_in_range h _ Hr'). cbn [fst snd].
     now rewrite kv_get_put, bytes_eqb_refl.
   - destruct (meta_get s TH k) as [m|] eqn:K; [|discriminate]. inversion H; subst.
-    unfold coll_set_expire. destruct (live_header s ts TH k m K E) as [L _]. rewrite L, (set_expire_in_range _ _ Hr). cbn [fst snd].
+    unfold coll_set_expire. destruct (live_header s ts TH k m K E) as [L _]. rewrite L, (set_expire_in_range _ _ Hr'). cbn [fst snd].
     now rewrite meta_get_put, (proj2 (mkey_eqb_eq (TH, k) (TH, k)) eq_refl).
   - destruct (meta_get s TS k) as [m|] eqn:K; [|discriminate]. inversion H; subst.
-    unfold coll_set_expire. destruct (live_header s ts TS k m K E) as [L _]. rewrite L, (set_expire_in_range _ _ Hr). cbn [fst snd].
+    unfold coll_set_expire. destruct (live_header s ts TS k m K E) as [L _]. rewrite L, (set_expire_in_range _ _ Hr'). cbn [fst snd].
     now rewrite meta_get_put, (proj2 (mkey_eqb_eq (TS, k) (TS, k)) eq_refl).
   - destruct (meta_get s TZ k) as [m|] eqn:K; [|discriminate]. inversion H; subst.
-    unfold coll_set_expire. destruct (live_header s ts TZ k m K E) as [L _]. rewrite L, (set_expire_in_range _ _ Hr). cbn [fst snd].
+    unfold coll_set_expire. destruct (live_header s ts TZ k m K E) as [L _]. rewrite L, (set_expire_in_range _ _ Hr'). cbn [fst snd].
     now rewrite meta_get_put, (proj2 (mkey_eqb_eq (TZ, k) (TZ, k)) eq_refl).
   - destruct (meta_get s TL k) as [m|] eqn:K; [|discriminate]. inversion H; subst.
-    unfold coll_set_expire. destruct (live_header s ts TL k m K E) as [L _]. rewrite L, (set_expire_in_range _ _ Hr). cbn [fst snd].
+    unfold coll_set_expire. destruct (live_header s ts TL k m K E) as [L _]. rewrite L, (set_expire_in_range _ _ Hr'). cbn [fst snd].
     now rewrite meta_get_put, (proj2 (mkey_eqb_eq (TL, k) (TL, k)) eq_refl).
+Qed.
+(* a duration that ends at or before the epoch expires the key at once (second 1) instead of wrapping into the future *)
+Theorem expire_in_the_past_is_immediate ts d : sec ts + d <= 0 -> d <= 0 -> expire_when ts d = Some 1.
+Proof.
+  intros H Hd. unfold expire_when. destruct ((d >? 0) && _) eqn:E; [lia|]. destruct (sec ts + d <=? 0) eqn:F; [reflexivity | lia].
 Qed.
 Theorem persist_clears_expiry s ts t k h : hdr_of s t k = Some h -> is_expired Compact h ts = false ->
   hdr_of (fst (step Compact s ts (CPersist t k))) t k = Some (mkH 0 (h_ver h)) /\
